@@ -338,8 +338,8 @@ MUTANTS += [
     dict(id="c04-revert-leading-zero-fix-float", props=["C04"], file=PARSE,
          old="        if RE_LEADING_ZERO.match(value):\n            raise JSONPathSyntaxError(\"invalid float literal\", token=stream.current)",
          new="        if value.startswith(\"0\") and len(value.split(\".\")[0]) > 1:\n            raise JSONPathSyntaxError(\"invalid float literal\", token=stream.current)"),
-    dict(id="c04-function-name-uppercase", props=["C04"], file=LEX, old='RE_FUNCTION_NAME = re.compile(r"[a-z][a-z_0-9]*")', new='RE_FUNCTION_NAME = re.compile(r"[a-zA-Z][a-z_0-9]*")'),
-    dict(id="c03-function-name-no-digits", props=["C03"], file=LEX, old='RE_FUNCTION_NAME = re.compile(r"[a-z][a-z_0-9]*")', new='RE_FUNCTION_NAME = re.compile(r"[a-z][a-z_]*")'),
+    dict(id="c04-function-name-uppercase", props=["C04"], file=LEX, old='RE_FUNCTION_CALL = re.compile(r"[a-z][a-z_0-9]*(?=\\()")', new='RE_FUNCTION_CALL = re.compile(r"[a-zA-Z][a-z_0-9]*(?=\\()")'),
+    dict(id="c03-function-name-no-digits", props=["C03"], file=LEX, old='RE_FUNCTION_CALL = re.compile(r"[a-z][a-z_0-9]*(?=\\()")', new='RE_FUNCTION_CALL = re.compile(r"[a-z][a-z_]*(?=\\()")'),
     dict(id="c04-keyword-uppercase-true", props=["C04"], file=LEX, old='        elif l.accept("true"):\n            l.emit(TokenType.TRUE)', new='        elif l.accept("true") or l.accept("TRUE"):\n            l.emit(TokenType.TRUE)'),
     dict(id="c03-missing-le-operator", props=["C03"], file=LEX,
          old='        if c == "<":\n            if l.peek() == "=":\n                l.next()\n                l.emit(TokenType.LE)\n            else:\n                l.emit(TokenType.LT)\n            continue',
@@ -536,12 +536,12 @@ MUTANTS += [
          old="    except JSONPathSyntaxError as err:\n        if args.debug:\n            raise\n", new="    except JSONPathSyntaxError as err:\n        if args.debug:\n            raise RuntimeError(str(err))\n"),
     dict(id="c20-pretty-ignored", props=["C20"], file=CLI, old="    indent = INDENT if args.pretty else None", new="    indent = None"),
     dict(id="c20-dump-nodes-not-values", props=["C20"], file=CLI, old="        values = path.find(data).values()", new="        values = path.find(data).paths()"),
-    dict(id="c20-dump-sort-keys", props=["C20"], file=CLI, old="    json.dump(values, args.output, indent=indent)", new="    json.dump(values, args.output, indent=indent, sort_keys=True)"),
-    dict(id="c20-output-to-stdout-always", props=["C20"], file=CLI, old="    json.dump(values, args.output, indent=indent)", new="    json.dump(values, sys.stdout, indent=indent)"),
+    dict(id="c20-dump-sort-keys", props=["C20"], file=CLI, old="        result = json.dumps(values, indent=indent)", new="        result = json.dumps(values, indent=indent, sort_keys=True)"),
+    dict(id="c20-output-to-stdout-always", props=["C20"], file=CLI, old="    args.output.write(result)", new="    sys.stdout.write(result)"),
     dict(id="c20-inline-query-stripped", props=["C20"], file=CLI, old="        query = args.query\n", new="        query = args.query.strip()\n"),
     dict(id="c20-query-file-lowercased", props=["C20"], file=CLI, old="        query = args.query_file.read().strip()", new="        query = args.query_file.read().strip().lower()"),
     dict(id="c20-success-exit-one-when-empty", props=["C20"], file=CLI,
-         old="    json.dump(values, args.output, indent=indent)", new="    json.dump(values, args.output, indent=indent)\n    if not values:\n        sys.exit(1)"),
+         old="    args.output.write(result)", new="    args.output.write(result)\n    if not values:\n        sys.exit(1)"),
 ]
 
 MUTANTS += [
@@ -780,4 +780,17 @@ MUTANTS += [
     # the correct recursive comparison is right for C06 but adds a document-descending recursion without a depth
     # discipline: '@ == @' on a self-referential value, which host == answers by identity, now exhausts the stack
     dict(id="c18-rec-eq-correct-but-unbounded", props=["C18"], file=FE, old=_EQ_TAIL, new=_rec_eq(_L_OK, _D_OK)),
+]
+
+MUTANTS += [
+    # reverts / weakenings of F21
+    dict(id="c20-revert-serialise-before-writing", props=["C20"], file=S + "cli.py",
+         old="    try:\n        # Serialize before writing, so there's no partial output on failure.\n        result = json.dumps(values, indent=indent)\n    except RecursionError as err:\n        # Values nested about as deeply as the interpreter's stack allows.\n        if args.debug:\n            raise\n        sys.stderr.write(f\"error: result is too deeply nested to serialize: {err}\\n\")\n        sys.exit(1)\n\n    args.output.write(result)\n",
+         new="    json.dump(values, args.output, indent=indent)\n"),
+    dict(id="c20-serialise-handler-catches-other-class", props=["C20"], file=S + "cli.py",
+         old="    except RecursionError as err:\n        # Values nested", new="    except KeyError as err:\n        # Values nested"),
+    dict(id="c20-serialise-failure-exits-zero", props=["C20"], file=S + "cli.py",
+         old="        sys.stderr.write(f\"error: result is too deeply nested to serialize: {err}\\n\")\n        sys.exit(1)", new="        sys.stderr.write(f\"error: result is too deeply nested to serialize: {err}\\n\")\n        sys.exit(0)"),
+    dict(id="c20-serialise-streams-inside-handler", props=["C20"], file=S + "cli.py",
+         old="        result = json.dumps(values, indent=indent)\n", new="        result = \"\"\n        json.dump(values, args.output, indent=indent)\n"),
 ]
